@@ -21,6 +21,29 @@ CHECKS = {
         technique='Coq theorem (certificate soundness) + kernel-evaluated certificate check on dumped tables'),
 }
 
+CHECKS['C04'] = dict(
+    category='proof',
+    text=('Unbounded Coq theorem success_iff_stabilizer: for a table accepted by the certificate checker, for EVERY residual error '
+          '(all 4^n) is_success <-> error in the span of the generators; plus in_codespace_iff, linearity, coset constancy, sector '
+          'layout theorems. Kernel-evaluated: certificate per dumped instance (so the all-errors theorem applies to that instance), '
+          'model == implementation on sampled residual errors, and on all 4^n operators for n <= 6 (quick) / 8 (thorough).'),
+    design_ref='DESIGN.md section 5 C04',
+    note=TB + 'Model of in_codespace/logical_errors/is_logical_error/is_success is hand-written (Code.v) and tied to the implementation by '
+         'the correspondence on recorded outputs. Certificates untrusted, checked in Coq.',
+    technique='Coq theorem (all-errors success criterion from a checked symplectic-basis certificate) + kernel-evaluated correspondence')
+CHECKS['C08'] = dict(
+    category='proof',
+    text=('Unbounded Coq theorems: the symplectic form is invariant under any per-qubit permutation of {X,Y,Z}; deformation preserves '
+          'validity, n, k, rank; deformed code sees D(e) as the code sees e (syndrome, logical effect, success); deform/access state '
+          'machine is history independent (and two refuted variants). Kernel-evaluated per dumped deformed instance: deformed table = '
+          'image of undeformed table under the dumped per-qubit dictionaries; XZZX = Hadamard exactly on the chosen-axis qubits; XY = '
+          'Y<->Z everywhere. Histories and the noise side are correspondence runs against the implementation.'),
+    design_ref='DESIGN.md section 5 C08',
+    note=TB + 'The noise-side clause (deformed model = undeformed model of D(e)) is checked on the implementation with dyadic parameters '
+         '(exact float arithmetic); its Coq statement over Q is in C07. History clause: abstract state machine proved in Coq, tied by '
+         'running random deform/access histories on real objects.',
+    technique='Coq theorems (GL(2,2) mask algebra, state-machine invariant) + kernel-evaluated image check on dumped tables')
+
 NOT_APPLICABLE = {}
 
 PENDING = ['C02', 'C03', 'C04', 'C05', 'C06', 'C07', 'C08', 'C09', 'C10', 'C11', 'C12', 'C13', 'C14', 'C15',
